@@ -241,7 +241,15 @@ def _check_batch(ctx, pairs, ref, hyp, eos, include_eos, cost, tier, tag, module
 def run_shard(spec, tier, seed):
     ctx = Ctx()
     if "large" in spec:
-        _large(ctx, *spec["large"], tuple(spec["cost"]), seed)
+        for gs in S.GLOBAL_STATES:  # the same instance under every global torch state: results must not change
+            sub = Ctx()
+            with S.global_state(gs):
+                _large(sub, *spec["large"], tuple(spec["cost"]), seed)
+            for v in sub.violations:
+                v["sig"]["global_state"] = gs
+            sub.viol_count = type(sub.viol_count)({k.replace("}", ', "global_state": "%s"}' % gs, 1) if k.endswith("}") else k: n
+                                                   for k, n in sub.viol_count.items()})
+            ctx.merge(sub)
         return ctx
     R, H = spec["R"], spec["H"]
     pairs, ref, hyp = S.pair_batch(R, H)
